@@ -96,8 +96,8 @@ def fk(
     assert vbounds
     nx, nt = x.shape
 
-    # lateral padding left and right
-    ntr_pad = int(ntr_pad)
+    # lateral padding left and right: the mirrored padding cannot hold more traces than the array itself
+    ntr_pad = min(int(ntr_pad), nx)
     ntr_tap = ntr_pad if ntr_tap is None else ntr_tap
     nxp = nx + ntr_pad * 2
 
@@ -206,8 +206,8 @@ def kfilt(
         return xout
     nx, nt = x.shape
 
-    # lateral padding left and right
-    ntr_pad = int(ntr_pad)
+    # lateral padding left and right: the mirrored padding cannot hold more traces than the array itself
+    ntr_pad = min(int(ntr_pad), nx)
     ntr_tap = ntr_pad if ntr_tap is None else ntr_tap
     nxp = nx + ntr_pad * 2
 
